@@ -405,7 +405,7 @@ class Check(Property):
                     except Exception:  # noqa: BLE001
                         continue                    # refusing (e.g. a casting error for an integer array) is acceptable
                     ok = q2.units == r.units and np.allclose(np.asarray(q2.magnitude, dtype=float), np.asarray(r.magnitude, dtype=float),
-                                                             rtol=1e-9, atol=0)
+                                                             rtol=1e-9, atol=0, equal_nan=True)
                     if not ok:
                         v.append(f"{tag}: i{h} on the {arr.dtype} array {arr.tolist()} leaves {q2!r}, {h} returns {r!r}")
         return v
@@ -450,7 +450,20 @@ class Check(Property):
                         if not math.isfinite(got) or not math.isfinite(nom):
                             continue
                         if not math.isclose(got, float(want[0]), rel_tol=1e-9):
-                            v.append(f"C15 {q!r}.{h}() [{tname} magnitude] = {r!r}: physical value {got} differs from {float(want[0])}")
+                            known = ""
+                            if tname != "decimal":
+                                # float range: the running product of the factors (source or result units) leaves the normal
+                                # float range on the way, or the result collapsed to zero although the value is representable
+                                from .c02 import Check as C02
+                                try:
+                                    los, his = zip(C02.float_excursion(u, q._units), C02.float_excursion(u, r._units))
+                                    lo, hi = min(los), max(his)
+                                except Exception:  # noqa: BLE001
+                                    lo, hi = 1.0, 1.0
+                                if lo < 1e-290 or hi > 1e290 or (nom == 0 and want[0] != 0):
+                                    known = (f" [known finding F61] (float range: the running product of the conversion factors spans "
+                                             f"{lo:.3g} .. {hi:.3g})")
+                            v.append(f"C15 {q!r}.{h}() [{tname} magnitude] = {r!r}: physical value {got} differs from {float(want[0])}{known}")
                         d = P.proj.dimensionality(units)
                         if tuple(sorted((k, x) for k, x in d.items() if x != 0)) != want[1]:
                             v.append(f"C15 {q!r}.{h}() [{tname} magnitude] = {r!r}: dimensionality changed")
